@@ -499,6 +499,12 @@ def mon_expect(run, script, il, iab, ml):
                 if il[k].startswith('chip '):
                     chips.append(il[k])
                 k -= 1
+        elif kind == 'resumehop' and P == 'C17':
+            run.cov['monitor_checks'] += 1
+            f = irqs[-1] if irqs else {}
+            ws = [e for e in spi_entries(f.get('spi')) if e['kind'] in ('W', 'WB') and e['reg'] != 0x12]
+            if ws or cb_entries(f.get('cb')):
+                run.violation('a channel-change flag pending at wake-up made the fresh handle (no channel list registered) write register %x / run a callback' % (ws[0]['reg'] if ws else 0), script)
         elif kind == 'resumeopmod' and P == 'C17':
             run.cov['monitor_checks'] += 1
             want = int(args[0])
